@@ -148,13 +148,21 @@ type verifShapeEmptyNameVerb struct {
 type verifShapeNamedJSONBadType struct {
 	X float64 `setec:"json"`
 }
+type verifShapeUnexported struct {
+	A []byte `setec:"a"`
+	b []byte `setec:"b"` // tagged but not exported: cannot be set
+}
 type verifShapeNoTags struct {
 	A []byte
 }
 
 func verifHarnessC20Parse() {
 	verifEnvReset()
-	switch nondetChoice("shape", 10) {
+	switch nondetChoice("shape", 11) {
+	case 10:
+		var t verifShapeUnexported
+		_, err := ParseFields(&t, "pfx") // accepting it would end in a reflect panic when the field is set
+		assert("unexported-tagged-field-rejected-up-front", err != nil)
 	case 8:
 		_, err := ParseFields(nil, "pfx")
 		assert("nil-argument-rejected", err != nil)
